@@ -22,7 +22,7 @@ ASSUMPTIONS = ["floats modelled as exact reals", "svd = arbitrary (S real >= 0 n
                "S_I > 0 for the EV weights"]
 OUTSIDE = ["the resolution clause (K largest local maxima at the true frequencies; exactly K non-negligible singular values): it depends on the "
            "actual singular vectors of a data matrix, i.e. on LAPACK, which the model leaves arbitrary",
-           "AIC / MDL subspace selection (logarithms and fractional powers of symbolic singular values)"]
+           "the numerical content of the AIC / MDL subspace selection (its scale behaviour is decided in C03; here only the argument rules)"]
 BUDGET = {"quick": 900, "thorough": 3400}
 
 
@@ -69,9 +69,21 @@ def pseudo(h, S, Vh, P, NSIG, n, k, method):
     return den
 
 
-def case_function(h, N, P, NSIG, n, method, cplx):
+def tone(h, N, n, f):
+    """noiseless complex exponential A * exp(2 pi i f m / n) on the NFFT grid, symbolic complex amplitude A != 0"""
+    A = h.cplx('A')
+    h.assume(A != 0, "A != 0")
+    if h.is_sym():
+        from symx import stubs
+        from symx.array import SymArray
+        tw = stubs.twiddles(n)
+        return SymArray.make([A * tw(-f * m) for m in range(N)], cplx=True)
+    return np.array([complex(A) * np.exp(2j * np.pi * f * m / n) for m in range(N)], dtype=complex)
+
+
+def case_function(h, N, P, NSIG, n, method, cplx, data='free'):
     S_ = sp()
-    x = h.vec('x', N, cplx)
+    x = h.vec('x', N, cplx) if data == 'free' else tone(h, N, n, 1)
     (psd, sv), FB, S, Vh = run_with_svd_capture(h, lambda: S_.eigen(x, P, NSIG=NSIG, method=method, NFFT=n))
     NP = N - P
     # (a) forward-backward data matrix
@@ -214,6 +226,11 @@ def cases(tier, seed):
                             continue
                         out.append(Case("function:%s:%s:N=%d:P=%d:NSIG=%d:NFFT=%d" % (method, 'cx' if cplx else 're', N, P, NSIG, n),
                                         case_function, dict(N=N, P=P, NSIG=NSIG, n=n, method=method, cplx=cplx), **T))
+        for n in ((4, 5) if q else (4, 5, 6, 8)):
+            # a noiseless tone: the data matrix is exactly rank deficient (its smallest singular values are 0 in exact
+            # arithmetic, rounding noise in floats) - the regime the resolution clause of the property talks about
+            out.append(Case("function:%s:noiseless-tone:N=4:P=2:NSIG=1:NFFT=%d" % (method, n), case_function,
+                            dict(N=4, P=2, NSIG=1, n=n, method=method, cplx=True, data='noiseless'), **T))
         out.append(Case("args:%s" % method, case_args, dict(method=method), **T))
     for name in ('pmusic', 'pev'):
         for cplx in (True, False):
